@@ -53,7 +53,8 @@ def gen_program(rng, pid):
                  sprop=False, pprop=False, iterate=False, minit=0, maxit=1,
                  hascond=rng.random() < 0.35, haspre=rng.random() < 0.4,
                  haspost=rng.random() < 0.4, upd=rng.random() < 0.3,
-                 sub=[], eqs=[])
+                 sub=[], eqs=[],
+                 name=rng.choice(['', '', 'grp', 'grp', 'other']))
         if mode in ('start', 'both'):
             g['start'] = rng.choice([0, 1, 2])
         if mode in ('stop', 'both'):
